@@ -760,6 +760,38 @@ impl DiscoveryDB {
       .unwrap_or_default()
   }
 
+  /// All currently known discovered writers of a participant. Locators are
+  /// defaulted from the participant, like `update_publication` does.
+  pub fn writers_of_participant(&self, participant: GuidPrefix) -> Vec<DiscoveredWriterData> {
+    let (unicast, multicast) = self.participant_default_locators(participant);
+    self
+      .external_topic_writers
+      .range(participant.range())
+      .map(|(_guid, dwd)| DiscoveredWriterData {
+        writer_proxy: WriterProxy::from(RtpsWriterProxy::from_discovered_writer_data(
+          dwd, &unicast, &multicast,
+        )),
+        ..dwd.clone()
+      })
+      .collect()
+  }
+
+  /// All currently known discovered readers of a participant. Locators are
+  /// defaulted from the participant, like `update_subscription` does.
+  pub fn readers_of_participant(&self, participant: GuidPrefix) -> Vec<DiscoveredReaderData> {
+    let (unicast, multicast) = self.participant_default_locators(participant);
+    self
+      .external_topic_readers
+      .range(participant.range())
+      .map(|(_guid, drd)| DiscoveredReaderData {
+        reader_proxy: ReaderProxy::from(RtpsReaderProxy::from_discovered_reader_data(
+          drd, &unicast, &multicast,
+        )),
+        ..drd.clone()
+      })
+      .collect()
+  }
+
   /// All currently known discovered writers on a topic, whichever participant
   /// they belong to. Locators are defaulted from the participant, like
   /// `update_publication` does.
